@@ -86,6 +86,38 @@ func goEval(line string) (rep string) {
 			parts = append(parts, vlib.Hex(out))
 		}
 		return strings.Join(parts, ",")
+	case "salsablk":
+		// salsablk <key32> <in16>: one core invocation on (Sigma, key, in) = the keystream block whose
+		// nonce ‖ counter is in16
+		if len(h(1)) != 32 || len(h(2)) != 16 {
+			return "err"
+		}
+		var in [16]byte
+		var k [32]byte
+		copy(k[:], h(1))
+		copy(in[:], h(2))
+		out := make([]byte, 64)
+		salsa.XORKeyStream(out, out, &in, &k)
+		return vlib.Hex(out)
+	case "salsactr":
+		// salsactr <key32> <nonce8> <ctr> <len>: keystream starting at block number ctr
+		if len(h(1)) != 32 || len(h(2)) != 8 {
+			return "err"
+		}
+		var in [16]byte
+		var k [32]byte
+		copy(k[:], h(1))
+		copy(in[:8], h(2))
+		ctr, err := strconv.ParseUint(w[3], 10, 64)
+		if err != nil {
+			panic(err)
+		}
+		for i := 0; i < 8; i++ {
+			in[8+i] = byte(ctr >> (8 * uint(i)))
+		}
+		out := make([]byte, atoi(w[4]))
+		salsa.XORKeyStream(out, out, &in, &k)
+		return vlib.Hex(out)
 	case "hsalsa":
 		if len(h(1)) != 32 || len(h(2)) != 16 {
 			return "err"
@@ -309,6 +341,7 @@ func salsas(c *ctx, rng *vlib.Rng) {
 	n := c.r.Scale(150, 3000)
 	for i := 0; i < n; i++ {
 		c.check("random", "hsalsa "+vlib.Hex(rng.Bytes(32))+" "+vlib.Hex(rng.Bytes(16)))
+		c.check("random", "salsablk "+vlib.Hex(rng.Bytes(32))+" "+vlib.Hex(rng.Bytes(16)))
 	}
 	for _, ln := range []int{0, 1, 31, 32, 33, 63, 64, 65, 127, 128, 129, 1000, 1536, 8192} {
 		c.check("structured", fmt.Sprintf("xsalsa %s %s %d", vlib.Hex(rng.Bytes(32)), vlib.Hex(rng.Bytes(24)), ln))
@@ -322,6 +355,10 @@ func salsas(c *ctx, rng *vlib.Rng) {
 	}
 	for i := 0; i < n; i++ {
 		c.check("random", fmt.Sprintf("salsa %s %s %d %d", vlib.Hex(rng.Bytes(32)), vlib.Hex(rng.Bytes(vlib.Pick(rng, []int{8, 24}))), rng.Intn(300), rng.Intn(300)))
+	}
+	// block counters around the 32-bit carry of the 64-bit counter and high counters
+	for _, ctr := range []uint64{0xfffffffe, 0xffffffff, 0x100000000, 0x1ffffffff, 0x7fffffffffffffff, 0xfffffffffffffff0} {
+		c.check("counter-carry", fmt.Sprintf("salsactr %s %s %d 200", vlib.Hex(rng.Bytes(32)), vlib.Hex(rng.Bytes(8)), ctr))
 	}
 	c.check("bad-size", fmt.Sprintf("xsalsa %s %s 10", vlib.Hex(rng.Bytes(31)), vlib.Hex(rng.Bytes(24))))
 	c.check("bad-size", fmt.Sprintf("xsalsa %s %s 10", vlib.Hex(rng.Bytes(32)), vlib.Hex(rng.Bytes(23))))
@@ -484,9 +521,9 @@ func speed(c *ctx) {
 	}
 	res := map[string]string{}
 	benches := []b{{"sha256", 64, 2000}, {"sha256", 8192, 50}, {"sha512", 8192, 50}, {"hmac", 8192, 50}, {"hmac", 64, 1000},
-		{"hkdfe", 144, 200}}
-	later := []b{{"xsalsa", 1536, 100}, {"poly", 1536, 100}, {"poly", 8192, 30}, {"sbseal", 1536, 100}, {"sbseal", 8192, 30},
-		{"sbopen", 1536, 100}, {"aesblk128", 16, 3000}, {"aesblk256", 16, 3000}, {"aesctr128", 1536, 100}, {"aesctr256", 1536, 100}, {"aesctr256", 8192, 30}}
+		{"hkdfe", 144, 200}, {"xsalsa", 1536, 100}, {"poly", 1536, 100}, {"poly", 8192, 30}, {"sbseal", 1536, 100}, {"sbseal", 8192, 30},
+		{"sbopen", 1536, 100}}
+	later := []b{{"aesblk128", 16, 3000}, {"aesblk256", 16, 3000}, {"aesctr128", 1536, 100}, {"aesctr256", 1536, 100}, {"aesctr256", 8192, 30}}
 	_ = later
 	for _, x := range benches {
 		t0 := time.Now()
@@ -518,10 +555,10 @@ func main() {
 	rng := vlib.NewRng(r.Seed)
 	hashes(c, rng.Fork())
 	hkdfs(c, rng.Fork())
+	salsas(c, rng.Fork())
+	polys(c, rng.Fork())
+	boxes(c, rng.Fork())
 	if false {
-		salsas(c, rng.Fork())
-		polys(c, rng.Fork())
-		boxes(c, rng.Fork())
 		aeses(c, rng.Fork())
 	}
 	speed(c)
